@@ -359,7 +359,7 @@ def step_update(s, op, checks, case):
     # model: old values, overridden by the constraint; choices under a switch whose index may be tagged
     # UnknownChange may be resampled (documented trigger) and are read from the new trace
     top_changed = s.node["k"] in ("switch", "or_else") and new_json[0] != s.args_json[0]
-    rs = resample_prefixes(node, casg, top_changed)
+    rs = resample_prefixes(node, wire, top_changed)
     masg = {p: v for p, v in s.asg.items() if not any(_pat_match(pre, p) for pre in rs)}
     masg.update(casg)
     run2, fresh = gfi.check_trace_against_model(new_tr, node, nnew, masg, "update:", case, Violation, allow_fresh=True)
@@ -565,7 +565,10 @@ def step_index(s, op, checks, case):
     under = [p for p in s.run.visited if len(p) > 0 and p[0] == idx]
     k, s.key = jax.random.split(s.key)
     argdiffs = _diff_args(s.sg, s.args_json, s.args_json, s.jargs, "min")
-    if op["sub"] == "update":
+    sub_kind = op["sub"]
+    if sub_kind == "regen" and not all(k.startswith("dist:") or k in ("static", "scan", "dimap", "map", "contramap") for k in gfi_strat.node_kinds(s.node["g"])):
+        sub_kind = "update"  # Regenerate is accepted by Static / Distribution / Scan / Dimap only
+    if sub_kind == "update":
         casg = {}
         for i, u in op.get("picks", []):
             if not under:
@@ -579,7 +582,7 @@ def step_index(s, op, checks, case):
         masg.update(casg)
         term = None
     else:
-        term = resolve_sel(s.node, op["sel"])
+        term = resolve_sel(s.node, op.get("sel", ["all"]))
         req = IndexRequest(jnp.array(idx), Regenerate(selmodel.build(term)))
         casg = {}
         masg = {p: v for p, v in s.asg.items() if not (len(p) > 0 and p[0] == idx and selected(term, p))}
@@ -602,7 +605,7 @@ def step_index(s, op, checks, case):
         "old_run": s.run, "weight": gfi.fval(w), "bwd_req": bwd_req, "bwd_chm": None, "casg": casg, "fresh": fresh,
         "retdiff": retdiff, "old_retval": s.tr.get_retval(), "new_args_json": s.args_json, "idx": idx, "n": n,
     }
-    if "weight" in checks and (not fresh or op["sub"] == "regen"):
+    if "weight" in checks and (not fresh or sub_kind == "regen"):
         exp_w = run2.score() - s.run.score()
         atol = gfi.score_tol(run2, len(s.run.terms))
         if not gfi.close(info["weight"], exp_w, atol):
